@@ -767,6 +767,10 @@ func (x *c17Runner) runCase(kind string, in c17Input) {
 		c17ItemDAG(x, in)
 	case "zero":
 		c17ZeroCase(x, in)
+	case "stackform":
+		c17StackCase(x, in)
+	case "stackfrom":
+		c17StackFromCase(x, in)
 	case "dec":
 		t := c17TypeByName(in.Type)
 		if t == nil {
@@ -1151,6 +1155,8 @@ func c17RunModelled(x *c17Runner, r *rng, cf *commonFlags) {
 		x.runCase("dec", c17Input{Type: pick(r, []string{"tx/bytes", "tx/stream"}), Bytes: hx(b)})
 		_ = i
 	}
+	// the stored (stack-item) form of manifests against the model
+	c17RunStackForms(x, r, cf.seed, n)
 	// zero values of every field of the modelled types: the model decides accept/reject and the bytes
 	for _, name := range []string{"tx/stream", "signer", "witness", "attr", "header", "header/sr", "block", "block/sr", "mptroot", "notification", "appexec",
 		"version", "addr", "addrlist", "inventory", "getblocks", "getblockbyindex", "headers", "ping", "mptinventory", "mptdata", "extensible", "mptnode"} {
@@ -1269,6 +1275,9 @@ func c17RunAllTypes(x *c17Runner, r *rng, cf *commonFlags, text bool) {
 		for i := 0; i < k; i++ {
 			x.runCase("dec", mk(c17Mutate(r, pick(r, seeds), text)))
 		}
+	}
+	if !text {
+		c17RunStackForms(x, r, cf.seed, n)
 	}
 	x.co.extra["x_types"] = func() []string {
 		var ns []string
